@@ -232,11 +232,6 @@ func (s *scope) Close() error {
 
 	var errs []error
 
-	// Cancel context
-	if s.cancel != nil {
-		s.cancel()
-	}
-
 	// Close all children first
 	s.childrenMu.Lock()
 	children := make([]*scope, 0, len(s.children))
@@ -250,6 +245,13 @@ func (s *scope) Close() error {
 		if err := child.Close(); err != nil {
 			errs = append(errs, fmt.Errorf("failed to close child scope: %w", err))
 		}
+	}
+
+	// Cancel context. This happens after the children are closed: cancelling first would
+	// wake the context watchers of every child created without its own context, which then
+	// close those children concurrently with the loop above and swallow their disposal errors
+	if s.cancel != nil {
+		s.cancel()
 	}
 
 	// Dispose all disposable scoped instances in reverse order
